@@ -796,6 +796,9 @@ def mon_c15(res):
             fails.append(dict(clause="C15.extern_address", detail="%s: %s (declared %d)" % (epath, body[:160], e["addr"])))
         elif not ret.startswith("& ' static mut ") or ret[len("& ' static mut "):] != mm.group(2):
             fails.append(dict(clause="C15.extern_type", detail="%s: returns %s, casts to %s" % (epath, ret, mm.group(2))))
+        elif e.get("want_path") and (e["want_path"] not in mm.group(2).replace(" ", "") or e["not_path"] in mm.group(2).replace(" ", "")):
+            fails.append(dict(clause="C15.extern_type", detail="%s: declared type `%s` names %s (the declaring module's own definition), emitted %s"
+                              % (epath, e["type"], e["want_path"], mm.group(2))))
     return fails
 
 
@@ -1159,6 +1162,8 @@ PROPS["C07"] = dict(
 )
 PROPS["C15"] = dict(
     exec_oracle=True,
+    generator=lambda seed_, ptr_: (gen_special.gen_c15_shadow(seed_, ptr_) if seed_ % 10 == 0
+                                   else gen.generate(seed_, ptr_, PROPS["C15"]["profile"])),
     profile=dict(p_singleton=0.6, extern_values=(1, 4), enums=(1, 3), types=(1, 3), externs=(0, 2), p_vftable=0.1, p_impl=0.1, p_base=0.1,
                  p_backend=0.0, fields=(0, 3), modules=(1, 3), p_extern_only_module=0.25),
     n=(400, 6000), corpus=["common", "C15"],
@@ -1416,7 +1421,8 @@ MISS_PROPS = {
     "overlap by one": ["C01", "C02"], "address off alignment by one": ["C01", "C02"], "zero-sized field off alignment by one": ["C01", "C02"], "default alignment below a member's alignment": ["C01", "C02"], "size one too small": ["C02"],
     "alignment not a power of two": ["C02", "C13"], "packed and align": ["C02"],
     "vfunc index below position": ["C04"], "vftable size below slots": ["C04"],
-    "impl function without address": ["C05"], "unresolvable parameter type": ["C05", "C10"], "unresolvable return type": ["C05", "C10"], "extern value without address": ["C15"], "extern type without align": ["C02"],
+    "impl function without address": ["C05"], "impl function named like a virtual function of the type": ["C05"], "impl block on an extern type": ["C05"],
+    "size not a multiple of the alignment": ["C01", "C02"], "unresolvable parameter type": ["C05", "C10"], "unresolvable return type": ["C05", "C10"], "extern value without address": ["C15"], "extern type without align": ["C02"],
     "defaultable without default": ["C08"], "default without defaultable": ["C08"], "two defaults": ["C08"],
     "derived vftable omits the last base slot": ["C06"],
     "derived vftable ends inside the base's trailing padding": ["C06"],
